@@ -102,6 +102,22 @@ def run(ctx):
                 s['qgenes'] = rng.sample(range(1, 7), 6)
                 s['Q'] = [[rng.randint(0, 4) for _ in range(6)] for _ in s['cells']]
                 s['markers'] = {k: [1, 2, 3, 4, 5, 6] for k in s['markers']}
+            if i % 16 == 5:
+                # a reference cluster without any cell (its statistics are all zero): a constant profile like any other,
+                # correlation 0 with every cell - never an undefined one
+                leaf_ = rng.choice(s['tree']['nodes'][-1])
+                s.setdefault('ncell', {})[str(leaf_)] = 0
+                s['means'][str(leaf_)] = [0] * s['G']
+            if i % 60 == 9:
+                # more than 128 sibling leaves under one parent, few runners-up requested, few iterations
+                t = maptrace.random_tree(rng, 1, 140, 130)
+                s = maptrace.gen_scenario(rng, tree=t, ncell=rng.randint(2, 4), G=6)
+                k_ = rng.randint(2, 4)
+                # (no more iterations than runners-up asked for: fewer types receive a vote than places are reported)
+                s['cfg'].update(K=k_, B=rng.randint(2, k_), fnum=rng.randint(3, 6), drop=None, flatten=False, minm=1)
+                s['markers'] = {'0/0': [1, 2, 3, 4, 5, 6]}
+                s['qgenes'] = rng.sample(range(1, 7), 6)
+                s['Q'] = [[rng.randint(0, 4) for _ in range(6)] for _ in s['cells']]
             scns.append(s)
         results = campaign(ctx, scns, 'MapRun_Trace_c03', focus='C03')
         # raw counts incl. a cell without any count (constant profile: every correlation 0).  The votes are not
